@@ -13,10 +13,10 @@ cd "$ROOT/ocaml"
 need=0
 if [ ! -x driver ] || [ main.ml -nt driver ] || [ ../coq/Extract/Extract.v -nt driver ]; then need=1; fi
 for f in ../coq/Model/*.vo; do if [ "$f" -nt driver ]; then need=1; fi; done
-if [ $need = 1 ] && [ -f ../coq/Model/Driver5.vo ] && [ -f ../coq/Model/Driver6.vo ] && [ -f ../coq/Model/Consistent.vo ] && [ -f ../coq/Model/Driver7.vo ] && [ -f ../coq/Model/Driver8.vo ] && [ -f ../coq/Model/Copying.vo ]; then
+if [ $need = 1 ] && [ -f ../coq/Model/Driver5.vo ] && [ -f ../coq/Model/Driver6.vo ] && [ -f ../coq/Model/Consistent.vo ] && [ -f ../coq/Model/Driver7.vo ] && [ -f ../coq/Model/Driver8.vo ] && [ -f ../coq/Model/Copying.vo ] && [ -f ../coq/Model/CopyFn.vo ]; then
   rm -f driver
   timeout 600 coqc -Q ../coq DD ../coq/Extract/Extract.v 2>&1 | grep -v "WARNING" || true
-  if [ ! model.ml -nt ../coq/Model/Driver5.vo ] || [ ! model.ml -nt ../coq/Model/Driver6.vo ] || [ ! model.ml -nt ../coq/Model/Consistent.vo ] || [ ! model.ml -nt ../coq/Model/Driver7.vo ] || [ ! model.ml -nt ../coq/Model/Driver8.vo ] || [ ! model.ml -nt ../coq/Model/Copying.vo ]; then echo "extraction failed"; exit 1; fi
+  if [ ! model.ml -nt ../coq/Model/Driver5.vo ] || [ ! model.ml -nt ../coq/Model/Driver6.vo ] || [ ! model.ml -nt ../coq/Model/Consistent.vo ] || [ ! model.ml -nt ../coq/Model/Driver7.vo ] || [ ! model.ml -nt ../coq/Model/Driver8.vo ] || [ ! model.ml -nt ../coq/Model/Copying.vo ] || [ ! model.ml -nt ../coq/Model/CopyFn.vo ]; then echo "extraction failed"; exit 1; fi
   timeout 600 ocamlfind ocamlopt -O3 -w -a model.mli model.ml main.ml -o driver
 fi
 exit $rc
